@@ -108,9 +108,14 @@ structure File where
   isImport : Bool := false
   syntaxUnspecified : Bool := false
   imports : List Import := []
-  /-- csharp_namespace, go_package, java_multiple_files ("" | "true" | "false"), java_package,
-      php_namespace, ruby_package, swift_prefix; "" = option absent. -/
-  langOpts : List Str := []
+  /-- csharp_namespace, go_package, java_multiple_files, java_package, php_namespace,
+      ruby_package, swift_prefix — the RAW option statements of the file:
+      `none` = the file has no `option <name> = …;` statement (the descriptor field is unset, there
+      is no source location); `some v` = the statement is present with value `v`
+      (java_multiple_files: "true" / "false"; the string options: the string, possibly EMPTY —
+      `option go_package = "";` is `some []`).  What a PACKAGE_SAME_<option> rule compares is
+      `optVal` (the per-file value extractor, as coded), where it reports is `optLoc`. -/
+  langOpts : List (Option Str) := []
   enums : List Enum := []
   msgs : List Message := []
   svcs : List Service := []
@@ -313,11 +318,23 @@ def pkgLoc (f : File) : List Nat := if f.pkg.isEmpty then [] else [2]
 def optFieldNumber : Nat → Nat
   | 0 => 37 | 1 => 11 | 2 => 10 | 3 => 1 | 4 => 41 | 5 => 45 | _ => 39
 
-def optVal (f : File) (k : Nat) : Str := f.langOpts.getD k []
+/-- the option statement number `k` of the file (`none` = unset, also beyond the list) -/
+def optRaw (f : File) (k : Nat) : Option Str := f.langOpts.getD k none
 
-/-- `file.<Opt>Location()`: nil when the option is absent. -/
+/-- The per-file VALUE extractor of the PACKAGE_SAME_<option> rules, as coded
+    (handleLintPackageSame*): the six string options go through the generated getter
+    (`GetGoPackage()` …), which returns "" both for an unset option and for an explicit
+    `option go_package = "";` — the two are ONE value; java_multiple_files returns "" only when
+    the descriptor field is nil and `strconv.FormatBool` otherwise, so an explicit
+    `option java_multiple_files = false;` ("false") is a value DIFFERENT from unset ("").
+    With the raw representation both are `getD ""`: "false" is simply not the empty string. -/
+def optVal (f : File) (k : Nat) : Str := (optRaw f k).getD []
+
+/-- `file.<Opt>Location()`: nil when there is no option statement — decided by PRESENCE, not by
+    the value: a file with `option go_package = "";` in a conflicting package is annotated at
+    `[8, 11]`, a file without the statement at the file (no location). -/
 def optLoc (f : File) (k : Nat) : List Nat :=
-  if (optVal f k).isEmpty then [] else [8, optFieldNumber k]
+  if (optRaw f k).isSome then [8, optFieldNumber k] else []
 
 def fileDir (f : File) : Str := BufModel.Path.dir f.path
 
